@@ -135,9 +135,13 @@ fn build_request(args: &[Tok]) -> Result<Request<()>, String> {
         _ => return Err("badop".into()),
     };
     let mut uri = Vec::new();
-    uri.extend_from_slice(scheme);
-    uri.extend_from_slice(b"://");
-    uri.extend_from_slice(auth);
+    // empty scheme and authority: origin-form request URI (path and query only)
+    let origin_form = scheme.is_empty() && auth.is_empty();
+    if !origin_form {
+        uri.extend_from_slice(scheme);
+        uri.extend_from_slice(b"://");
+        uri.extend_from_slice(auth);
+    }
     uri.extend_from_slice(pq);
     let mut b = Request::builder().method(method).version(version).uri(&uri[..]);
     let mut given: Vec<(Vec<u8>, Vec<u8>)> = vec![];
@@ -158,8 +162,8 @@ fn build_request(args: &[Tok]) -> Result<Request<()>, String> {
     // The model takes the URI components and the header order as given: check that the http crate
     // sees the same thing.
     let u = req.uri();
-    let s_ok = u.scheme_str().map(|s| s.as_bytes().eq_ignore_ascii_case(scheme)).unwrap_or(false);
-    let a_ok = u.authority().map(|a| a.as_str().as_bytes() == &auth[..]).unwrap_or(false);
+    let s_ok = u.scheme_str().map(|s| s.as_bytes().eq_ignore_ascii_case(scheme)).unwrap_or(origin_form);
+    let a_ok = u.authority().map(|a| a.as_str().as_bytes() == &auth[..]).unwrap_or(origin_form);
     let p_real = u.path_and_query().map(|p| p.as_str()).unwrap_or("");
     let p_ok = p_real.as_bytes() == &pq[..] || (pq.is_empty() && p_real == "/");
     if !(s_ok && a_ok && p_ok) {
